@@ -24,6 +24,7 @@ from typing import TextIO
 from markupsafe import Markup
 
 from .exceptions import ContextDepthError
+from .exceptions import LiquidTypeError
 from .exceptions import LocalNamespaceLimitError
 from .exceptions import LoopIterationLimitError
 from .exceptions import UnknownFilterError
@@ -222,7 +223,7 @@ class RenderContext:
                 return obj["size"]
             except (KeyError, IndexError, TypeError):
                 if isinstance(obj, Sized):
-                    return len(obj)
+                    return length(obj)
                 raise
         if key == "first":
             try:
@@ -259,7 +260,7 @@ class RenderContext:
                 return await _get_item(obj, "size")
             except (KeyError, IndexError, TypeError):
                 if isinstance(obj, Sized):
-                    return len(obj)
+                    return length(obj)
                 raise
         if key == "first":
             try:
@@ -502,6 +503,14 @@ class BuiltIn(Mapping[str, object]):
 
 
 builtin = BuiltIn()
+
+
+def length(obj: Sized) -> int:
+    """Return the length of _obj_, which might be a range too long for `len()`."""
+    try:
+        return len(obj)
+    except OverflowError as err:
+        raise LiquidTypeError("sequence is too long", token=None) from err
 
 
 RE_PROPERTY = re.compile(r"[\u0080-\uFFFFa-zA-Z_][\u0080-\uFFFFa-zA-Z0-9_-]*")
